@@ -147,9 +147,10 @@ func (r *rewriter) rewriteFile(f *loader.File, printer FilePrinter) {
 	parseOrImport := func(fset *token.FileSet, f *ast.File) (coName, seqName string) {
 		coName = imports.ImportName(f, pkgCoPath, pkgCoName)
 		assert(coName != "") // coPkg != nil
-		seqName = imports.ImportName(f, pkgSeqPath, pkgSeqName)
-		if seqName == "" {
-			seqName = importSeqName
+		// always import seq with the conflict-free name, even if the file imports seq by itself:
+		// the name user imported may be shadowed by local variables in yield func
+		seqName = importSeqName
+		if !importedAs(f, pkgSeqPath, importSeqName) {
 			astutil.AddNamedImport(fset, f, importSeqName, pkgSeqPath)
 		}
 		return
